@@ -69,7 +69,9 @@ const (
 	kfMigFloorZero = "c16-history-prune-migration-fails-when-floor-is-zero"
 )
 
-func known(key string) bool { return stats.Known(key) || strings.Contains(os.Getenv("C16_ASSUME_KNOWN"), key) }
+func known(key string) bool {
+	return stats.Known(key) || strings.Contains(os.Getenv("C16_ASSUME_KNOWN"), key)
+}
 
 // chainEpoch is the first timestamp gen.NewChain uses.
 const chainEpoch = 1_700_000_000
@@ -1744,7 +1746,7 @@ func runCase(t *testing.T, rt *rapid.T, c *stats.Case) {
 const rule = "per case (inside a synctest bubble with a virtual clock): config drawn from backend {legacy, trie2} x retained {0,1,2,5,1000} x l2HeadsPerPrune {1,3} x target batch size {1 byte, default} x min-age {0, 1h (tick default|1m)} x clock offset {0, 45m, 3h, 20h, 3y}; a fifth of the cases start without --prune-mode and enable it at a later restart (history-prune migration run where node.Run runs it); 11-22 warm-up blocks then a script of 8-77 steps over store (generated or empty block, occasionally stamped minutes before the virtual now, arrival time >= its timestamp, new-head event to the real pruner.Run loop) / L1 head (lagging, equal, ahead; event before or after the write) / idle (virtual minutes-hours, min-age ticks fire) / restart (graceful or not: new Blockchain+floor+Pruner on the same DB, wired as node.New does) / reorg above the L1 head / query; a third of the store/L1 steps are fault probes (crash image after, or context cancelled at, the k-th commit of the prune just triggered, on copies: restart, check, resume, compare with the uninterrupted copy); after each of the first commits of every prune a reader opens the state of the blocks being pruned; optional final revert down to the floor, attempt below it, re-extension. Oracles vs an unpruned twin: floor <= high-water of min(L1, head)-retained and no block younger than min-age pruned; every Reader answer, state (by number and hash, from floor-1) and event query for blocks >= floor equal the twin (and the abstract state); headers of the BlockHashLag blocks below the floor and the hash->number of floor-1 kept; below the floor refused or exactly the twin's answer. Non-trivial = a prune deleted >= 1 block and a query, revert or restart followed."
 
 func TestPropPruning(t *testing.T) {
-	stats.Check(t, stats.Budget{Quick: 80, Thorough: 1200}, rule, func(rt *rapid.T, c *stats.Case) {
+	stats.Check(t, stats.Budget{Quick: 80, Thorough: 700}, rule, func(rt *rapid.T, c *stats.Case) {
 		t0 := wall()
 		bubble(t, func() { runCase(t, rt, c) })
 		prof("case", t0)
@@ -1836,7 +1838,7 @@ func runMinAgeReorg(t *testing.T, rt *rapid.T, c *stats.Case) {
 }
 
 func TestPropMinAgeAroundReorg(t *testing.T) {
-	stats.Check(t, stats.Budget{Quick: 40, Thorough: 500}, ruleMinAge, func(rt *rapid.T, c *stats.Case) {
+	stats.Check(t, stats.Budget{Quick: 40, Thorough: 300}, ruleMinAge, func(rt *rapid.T, c *stats.Case) {
 		bubble(t, func() { runMinAgeReorg(t, rt, c) })
 	})
 }
